@@ -1,6 +1,7 @@
 """Implementation-side driver for C05: runs the REAL esr.fitting.match.main on hand-made libraries.
 
 usage: c05_impl.py run <libs.json> <workdir>
+       c05_impl.py real <data_dir> <data_file> <run_name> <fn_set> <comp>     (see real() below)
   libs.json: [{"max_param": 4,
                "uniques":  [{"fcn": str, "nll": num, "params": [max_param nums], "fish": [max_param(max_param+1)/2 nums]}, ...],
                "variants": [{"fcn": str, "match": int, "chain": [str, ...],        # str(dict) as the generator writes it, or "nan"
@@ -143,6 +144,57 @@ def run(libs_path, workdir):
         json.dump(out, sys.stdout)
 
 
+def real(data_dir, data_file, run_name, fn_set, comp):
+    """After fit_run.py ran the stages fit,fisher,match on a real library with a real GaussLikelihood: collect, per function of
+    all_equations, the recorded chain, the unique's fitted row and Hessian row (as the TEXT of the files match.main read), the
+    row of codelen_matches, and the real likelihood re-evaluated at the reported parameters through the function's own string."""
+    warnings.simplefilter("ignore")
+    import numpy as np
+    import sympy
+    np.seterr(all="ignore")
+    import esr.fitting.likelihood as L
+    import esr.generation.simplifier as S
+    from esr.fitting.sympy_symbols import x, a0
+    comp = int(comp)
+    with contextlib.redirect_stdout(io.StringIO()):
+        lik = L.GaussLikelihood(data_file, run_name, data_dir=data_dir, fn_set=fn_set)
+    d = lik.fn_dir + "/compl_%d" % comp
+    fcns = [l.strip() for l in open(d + "/all_equations_%d.txt" % comp)]
+    uniq = [l.strip() for l in open(d + "/unique_equations_%d.txt" % comp)]
+    matches = [int(float(l)) for l in open(d + "/matches_%d.txt" % comp)]
+    with open(d + "/inv_subs_%d.txt" % comp) as f:
+        chains = [r for r in csv.reader(f, delimiter=";")]
+    nl = [l.split() for l in open(lik.out_dir + "/negloglike_comp%d.dat" % comp)]
+    dv = [l.split() for l in open(lik.out_dir + "/derivs_comp%d.dat" % comp)]
+    rows = [l.split() for l in open(lik.out_dir + "/codelen_matches_comp%d.dat" % comp)]
+    maxp = len(nl[0]) - 1
+    out = []
+    for i, fcn in enumerate(fcns):
+        n = int(S.count_params([fcn], maxp)[0])
+        at = None
+        try:
+            if n == 0:
+                raise LookupError
+            f2, eq, integrated = lik.run_sympify(fcn, tmax=5, try_integration=False)
+            pars = [float(t) for t in rows[i][3:3 + n]]
+            if n == 1:
+                eqn = sympy.lambdify([x, a0], eq, modules=["numpy"])
+            else:
+                eqn = sympy.lambdify([x] + list(sympy.symbols(" ".join("a%d" % j for j in range(max(n, 1))), real=True))[:1 + n], eq,
+                                     modules=["numpy"])
+            v = float(lik.negloglike(pars if n > 0 else [], eqn, integrated=integrated)) if n > 0 else None
+            at = None if v is None else ("nan" if np.isnan(v) else "inf" if v == np.inf else "-inf" if v == -np.inf else repr(v))
+        except LookupError:
+            at = None
+        except Exception as e:
+            at = "EXC:" + type(e).__name__
+        out.append({"fcn": fcn, "n": n, "match": matches[i], "chain": chains[i], "row": rows[i], "nll_at_reported": at})
+    sys.stdout.write("\n@@C05JSON@@")
+    json.dump({"maxp": maxp, "uniques": [{"fcn": u, "row": nl[k], "fish": dv[k]} for k, u in enumerate(uniq)], "variants": out}, sys.stdout)
+
+
 if __name__ == "__main__":
     if sys.argv[1] == "run":
         run(sys.argv[2], sys.argv[3])
+    elif sys.argv[1] == "real":
+        real(*sys.argv[2:7])
